@@ -7,8 +7,8 @@
    and logs the projection of the real object, read back through every designator.
 3. TLC (TraceDbTable) judges every recorded state and every recorded (from, op, to).
 """
-import json, os
-import vlib
+import json, os, subprocess, glob, copy
+import vlib, dbtrace
 from vlib import Check, Broken, log
 
 CFG = """SPECIFICATION Spec
@@ -111,12 +111,87 @@ def explore_and_judge(ck, b, tag):
     return len(cat)
 
 
+QUICK_TESTS = ["test_Db", "bench_Db", "test_neigh", "test_Anam", "test_simTub", "test_PCA", "test_vario", "test_serialize",
+               "bench_KrigingU", "test_Model"]
+
+
+def validate_recorded_traces(ck, tier):
+    """Binding (d): structural Db events recorded by the guarded hooks while UNMODIFIED programs run
+    (the repository's own tests, the calculator harness) are judged by TLC (TraceDbEvents.tla)."""
+    w = ck.work
+    raw = os.path.join(w, "dbevents_raw.ndjson")
+    if os.path.exists(raw):
+        os.remove(raw)
+    if tier == "quick":
+        names = QUICK_TESTS
+    else:
+        names = sorted(os.path.basename(f)[:-4] for f in glob.glob(os.path.join(vlib.REPO, "tests", "cpp", "*.cpp")))
+    ran = []
+    rundir = os.path.join(w, "rt")
+    os.makedirs(rundir, exist_ok=True)
+    env = dict(os.environ, GSTLEARN_VERIF_TRACE=raw)
+    for t in names:
+        exe = dbtrace.build_repo_test(t)
+        if not exe:
+            continue
+        try:
+            r = subprocess.run([exe], cwd=rundir, env=env, capture_output=True, text=True, timeout=300)
+            ran.append(t)
+        except subprocess.TimeoutExpired:
+            pass
+    # the calculator scenarios of C19 also exercise the Db mutators (failing paths included)
+    try:
+        cexe = vlib.build_harness("calc_run")
+        scen = [{"id": i + 1, "profile": p, "fault": f, "variant": "std", "prior": pr}
+                for i, (p, f, pr) in enumerate((p, f, pr) for p in ("kriging", "xvalid", "simtub_cond", "migrate", "anam_transform")
+                                               for f in ("none", "after_preprocess", "after_run") for pr in ("plain", "clash"))]
+        sp = os.path.join(w, "trace_scen.ndjson")
+        vlib.write_ndjson(sp, scen)
+        subprocess.run([cexe, sp, os.path.join(w, "trace_calclog.ndjson")], env=env, capture_output=True, text=True, timeout=600)
+        ran.append("calc_run")
+    except (Broken, subprocess.TimeoutExpired):
+        pass
+    if not os.path.exists(raw):
+        raise Broken("no Db event recorded: are the hooks of Db.cpp compiled in (GSTLEARN_VERIF)?")
+    evp = os.path.join(w, "dbevents.ndjson")
+    n, skipped = dbtrace.convert(raw, evp)
+    if n < 50:
+        raise Broken("only %d Db events recorded" % n)
+    res = vlib.run_tlc("TraceDbEvents", "TraceDbEvents.cfg", workers=1, env={"EVENTS": evp}, timeout=3000)
+    if res.violation or "NOT-ALL-EXAMINED" in res.stdout:
+        raise Broken("TraceDbEvents did not examine all events:\n" + (res.violation or res.stdout[-1500:]))
+    events = vlib.read_ndjson(evp)
+    for e in res.emitted:
+        x = events[e["idx"] - 1]
+        ck.disagree({"kind": "transition", "op": x["c"]["op"], "fails": sorted(e["fails"]), "rank_in_range": e["inrange"],
+                     "source": "recorded-trace"}, x)
+    # binding demonstration (vacuity guard): a corrupted event must be rejected
+    victim = next((copy.deepcopy(x) for x in events if x["c"]["op"] == "addColumnsByConstant" and x["post"]["cols"]), None)
+    if victim is None:
+        raise Broken("no addColumnsByConstant event recorded")
+    victim["post"]["cols"][-1]["uid"] = victim["post"]["cols"][0]["uid"] if len(victim["post"]["cols"]) > 1 else victim["post"]["nuid"] + 5
+    cp = os.path.join(w, "dbevents_corrupt.ndjson")
+    vlib.write_ndjson(cp, [victim])
+    r2 = vlib.run_tlc("TraceDbEvents", "TraceDbEvents.cfg", workers=1, env={"EVENTS": cp}, timeout=600)
+    if not r2.emitted:
+        raise Broken("binding self-test failed: a corrupted Db event was accepted by TraceDbEvents")
+    ops = {}
+    for x in events:
+        ops[x["c"]["op"]] = ops.get(x["c"]["op"], 0) + 1
+    ck.cov["recorded_trace_programs"] = ran
+    ck.cov["recorded_db_events_judged"] = n
+    ck.cov["recorded_db_events_by_op"] = ops
+    ck.cov["recorded_db_events_skipped"] = skipped
+    ck.add("traces_validated_against_impl", n)
+    log("[C07] recorded traces: %d programs, %d distinct events judged by TLC, %d rejected" % (len(ran), n, len(res.emitted)))
+
+
 def run(tier):
     ck = Check("C07", "model_checking", tier)
     vlib.build_lib()
     # 1. model checking of the reference semantics
     if tier == "quick":
-        mc = dict(types=["x", "z"], maxcols=2, maxuid=3, maxnech=1)
+        mc = dict(types=["x", "z"], maxcols=2, maxuid=2, maxnech=1)
     else:
         mc = dict(types=["x", "z", "sel"], maxcols=2, maxuid=3, maxnech=2)
     mcfg = os.path.join(ck.work, "mc.cfg")
@@ -141,6 +216,7 @@ def run(tier):
         b2 = dict(types=["x", "z", "f", "v"], maxcols=4, maxuid=6, maxnech=1, max_transitions=300000, walks=2000,
                   walk_depth=40, init_nech=[1], grids=[0])
         ncat += explore_and_judge(ck, b2, "wide")
+    validate_recorded_traces(ck, tier)
     ck.cov["catalogue_entries"] = ncat
     ck.cov["rule"] = ("every catalogue entry (operation + arguments, emitted by TLC from DbTable.tla) applied to a clone of "
                       "the real Db/DbGrid in every state reached breadth-first within the bounds, plus seeded random walks; "
